@@ -115,6 +115,27 @@ class PyDict:
         return "<dict #%d>" % self.oid
 
 
+class SymKey:
+    """A symbolic key stored in a PyDict cell (the dict is then an association list: lookups and stores compare the
+    key with every stored key).  Hash-consed terms make structural identity cheap."""
+    __slots__ = ("sym",)
+
+    def __init__(self, sym):
+        self.sym = sym
+
+    def __hash__(self):
+        return hash((self.sym.kind, id(self.sym.term)))
+
+    def __eq__(self, other):
+        return isinstance(other, SymKey) and other.sym.kind == self.sym.kind and other.sym.term is self.sym.term
+
+    def __repr__(self):
+        return "SymKey(%r)" % (self.sym,)
+
+    def __deepcopy__(self, memo):
+        return self
+
+
 class SymObjSeq:
     """A symbolic-length list of instances of one class, stored as struct-of-arrays:
     fields[name] = (kind, Array Int <sort>) ; length term."""
@@ -124,6 +145,21 @@ class SymObjSeq:
 
     def __deepcopy__(self, memo):
         return self
+
+
+class FiniteMap:
+    """Handle of a dict whose keys range over a finite, known universe of constants (e.g. the four element
+    names of a v1 certificate).  Cell: {key: (present: Bool term, value)} for every key of the universe."""
+    __slots__ = ("oid",)
+
+    def __init__(self, oid):
+        self.oid = oid
+
+    def __deepcopy__(self, memo):
+        return self
+
+    def __repr__(self):
+        return "<fmap #%d>" % self.oid
 
 
 class ClassVal:
